@@ -108,7 +108,7 @@ func c04Grammar(res *explore.Result, g *gram.Grammar, inputs [][]byte, verbose b
 					continue
 				}
 				n := len(w)
-				c := Case{Placement: impl.Placement, Grammar: gs, Input: string(w), Note: v.String()}
+				c := Case{Placement: impl.Placement, Prior: b.MemoBefore, Grammar: gs, Input: string(w), Note: v.String()}
 				where := fmt.Sprintf("%s [%s]", c, v)
 				res.Add("states", 1)
 
